@@ -42,7 +42,7 @@ def with_async(op):
 
 def plan(ctx, tools):
     quick = ctx.tier == "quick"
-    nfixed, nseed, per = (4, 2, 2) if quick else (0, 120, 3)
+    nfixed, nseed, per = (4, 2, 2) if quick else (0, 60, 2)
     limit = 160_000 if quick else 500_000
     fixed = G.pick_worlds(tools, FIXED_WORLD_SEED, nfixed, FEATURES, "ax", limit) if nfixed else []
     seeded = G.pick_worlds(tools, ctx.seed ^ 0xa5, nseed, FEATURES, "ay", limit)
@@ -132,7 +132,8 @@ def run(ctx):
         if srec is None:
             continue
         pairs += 1
-        assert rec[3] == srec[3] and rec[4] == srec[4], "engine: sync and async runs drew different values"
+        if rec[3] != srec[3] or rec[4] != srec[4]:
+            raise RuntimeError("engine: sync and async runs drew different values for %s %s call %d" % (rk, fk, c))
         sync_ok, async_ok = not srec[0], not rec[0]
         if sync_ok and async_ok:
             same += 1
@@ -183,7 +184,7 @@ def run(ctx):
             "timing_s": round(time.time() - t0, 1), "guest_process_deaths": stats.get("guest_deaths", 0),
         },
     })
-    G.prune_workspaces(keep=12)
+    G.prune_workspaces(keep=16)
 
 
 def replay(ctx, path):
